@@ -241,6 +241,9 @@ def scenarios(tier):
         [tuple(r for j, r in enumerate((2, 3, 4, 5)) if (mask >> j) & 1) for mask in range(1, 16)]
     for dset in dels:
         sc.append(("Serial", "string" if len(dset) % 2 else "file", "delete:" + ",".join(map(str, dset))))
+    # partially published probe groups ({binary, build.log} of the vendor probe, {binary, output} of the OpenMP probe)
+    for roles in ((12,), (5,)) if tier == "quick" else ((12,), (5,), (11,), (5, 11), (10,), (13,)):
+        sc.append(("OpenMP", "file", "pdelete:" + ",".join(map(str, roles))))
     return sc
 
 
@@ -275,6 +278,18 @@ def trace_scenario(exe, base, idx, mode, how, what):
     one("fresh")
     if what == "fresh+cached":
         one("cached")
+    elif what.startswith("pdelete:"):
+        # what a builder killed between the two renames of a probe's staging group leaves behind:
+        # one file of the group missing (and the kernel binary, so that the next process really rebuilds)
+        roles = set(int(x) for x in what.split(":")[1].split(","))
+        for p in listing(cache):
+            dfiles = [os.path.basename(q) for q in glob.glob(os.path.dirname(p) + "/*")]
+            probe = "findCompilerVendor.cpp" in dfiles or "compilerSupportsOpenMP.cpp" in dfiles
+            if probe and FT.role_of(os.path.basename(p), {}) in roles:
+                os.unlink(p)
+            if not probe and os.path.basename(p) == "binary" and "build.json" in dfiles:
+                os.unlink(p)
+        one("rebuild")
     else:
         roles = set(int(x) for x in what.split(":")[1].split(","))
         for p in listing(cache):
@@ -528,7 +543,7 @@ def run(run, tier, seed, replay_case=None):
         cov["samples"] = [dict(trace=traces[0][0], ops=FT.coq_ops(traces[0][1])[:600])] + \
                          [dict(kill=dict(mode=k["mode"], kind=k["how"], syscall=k["sc"], index=k["k"], builder_output=k["first"][:60],
                                          rebuilt=k["rebuilt"])) for k in kills[:3]]
-        cov["scenario_mix"] = {w: sum(1 for s in scs if s[2].startswith(w)) for w in ("fresh", "delete")}
+        cov["scenario_mix"] = {w: sum(1 for s in scs if s[2].startswith(w)) for w in ("fresh", "delete", "pdelete")}
         run.assumptions = ["fault model: SIGKILL of the building process; not power loss", "POSIX rename atomicity"]
     finally:
         shutil.rmtree(base, ignore_errors=True)
